@@ -133,3 +133,100 @@ func c08DialectReplay(c *core.Ctx, payload json.RawMessage) bool {
 	c08DialectOne(c, core.Scratch("c08dialect-replay"), k)
 	return true
 }
+
+// Family failed-attribute: ALTER TABLE ... SET <attribute> TO <a value the attribute refuses> is a data-changing
+// statement that fails: the table - rows AND the layout a later COMMIT writes it in - stays as it was.
+func init() {
+	core.Extend("C08", "family failed-attribute: 14 refused ALTER TABLE ... SET statements (every attribute with invalid values) on a CSV, a TSV and a JSON table, followed by a successful UPDATE and COMMIT; "+
+		"oracle: rows unchanged after the failure, and the committed file equals the file the same UPDATE commits without the failed statement before it", c08FailedAttrRun)
+}
+
+var c08FailedAttrs = []string{
+	"DELIMITER_POSITIONS TO 'invalid'", "DELIMITER_POSITIONS TO 'S[]'", "DELIMITER_POSITIONS TO '[1, 2'", "DELIMITER_POSITIONS TO '[3, 1]'", "DELIMITER_POSITIONS TO NULL",
+	"FORMAT TO 'NOSUCH'", "DELIMITER TO 'ab'", "DELIMITER TO ''", "ENCODING TO 'NOSUCH'", "LINE_BREAK TO 'X'", "JSON_ESCAPE TO 'X'", "HEADER TO 'maybe'", "ENCLOSE_ALL TO 5", "NOSUCH_ATTRIBUTE TO 1",
+}
+
+var c08FailedAttrTables = []struct{ file, content, upd string }{
+	{"t.csv", "a,b\n1,x\n2,y\n", "UPDATE `t.csv` SET b = 'q' WHERE a = 2"},
+	{"t.tsv", "a\tb\n1\tx\n2\ty\n", "UPDATE `t.tsv` SET b = 'q' WHERE a = 2"},
+	{"t.json", "[{\"a\":1,\"b\":\"x\"},{\"a\":2,\"b\":\"y\"}]\n", "UPDATE `t.json` SET b = 'q' WHERE a = 2"},
+}
+
+type c08FailedAttrCase struct {
+	Family string `json:"family"`
+	Table  int    `json:"table"`
+	Attr   string `json:"refused_attribute"`
+}
+
+func c08FailedAttrOne(c *core.Ctx, dir string, k c08FailedAttrCase) {
+	tb := c08FailedAttrTables[k.Table]
+	run := func(withAlter bool) (snap map[string]string, rowsBefore, rowsAfter string, aerr error, ok bool) {
+		drv.ClearDir(dir)
+		drv.WriteFiles(dir, map[string]string{tb.file: tb.content})
+		env := drv.New(dir)
+		defer env.Close()
+		env.Tx.Flags.SetQuiet(true)
+		rowsBefore, _ = c01AttrView(env, "`"+tb.file+"`", false)
+		if withAlter {
+			r := env.Exec("ALTER TABLE `" + tb.file + "` SET " + k.Attr + ";")
+			if r.Panic != nil {
+				c.Violate("failed-attribute:panic", fmt.Sprintf("%s: ALTER TABLE SET %s: %v", tb.file, k.Attr, r.Panic), k)
+				return nil, "", "", nil, false
+			}
+			aerr = r.Err
+			if aerr == nil {
+				return nil, "", "", nil, false // the value is accepted: not a case
+			}
+			env.Exec(c08DialectChurn)
+			rowsAfter, _ = c01AttrView(env, "`"+tb.file+"`", false)
+		}
+		if r := env.Exec(tb.upd + "; COMMIT;"); r.Err != nil || r.Panic != nil {
+			c.Violate("failed-attribute:later-statement-fails", fmt.Sprintf("%s: after the refused ALTER TABLE SET %s (%v): %s; COMMIT: %v %v", tb.file, k.Attr, aerr, tb.upd, r.Err, r.Panic), k)
+			return nil, "", "", aerr, false
+		}
+		return drv.DirSnapshot(dir), rowsBefore, rowsAfter, aerr, true
+	}
+	want, _, _, _, ok := run(false)
+	if !ok {
+		return
+	}
+	got, before, after, aerr, ok := run(true)
+	if !ok {
+		if aerr == nil {
+			c.Observe("failed_attribute_values_accepted", k.Attr)
+		}
+		return
+	}
+	c.Eval(fmt.Sprintf("failed-attribute|%s|%s", tb.file, k.Attr), true)
+	if before != after {
+		c.Violate("failed-attribute:rows-changed-by-refused-statement", fmt.Sprintf("%s: ALTER TABLE SET %s fails (%v), the table read %q before and %q after", tb.file, k.Attr, aerr, before, after), k)
+		return
+	}
+	if fmt.Sprint(got) != fmt.Sprint(want) {
+		c.Violate("failed-attribute:layout-changed-by-refused-statement", fmt.Sprintf("%s: ALTER TABLE SET %s fails (%v); %s; COMMIT then writes %v - without the refused statement %v", tb.file, k.Attr, aerr, tb.upd, got, want), k)
+	}
+}
+
+func c08FailedAttrRun(c *core.Ctx) {
+	dir := core.Scratch("c08failedattr")
+	var idx int64
+	for ti := range c08FailedAttrTables {
+		for _, a := range c08FailedAttrs {
+			idx++
+			if !c.Mine(idx) {
+				continue
+			}
+			c08FailedAttrOne(c, dir, c08FailedAttrCase{"failed-attribute", ti, a})
+		}
+	}
+}
+
+func c08FailedAttrReplay(c *core.Ctx, payload json.RawMessage) bool {
+	var k c08FailedAttrCase
+	if json.Unmarshal(payload, &k) != nil || k.Family != "failed-attribute" {
+		return false
+	}
+	fmt.Printf("replaying family failed-attribute: %+v\n", k)
+	c08FailedAttrOne(c, core.Scratch("c08failedattr-replay"), k)
+	return true
+}
